@@ -4,3 +4,5 @@ import XV.Model.Chain
 import XV.Model.Ledger
 import XV.Props.C20
 import XV.Props.C15
+import XV.Model.Sandbox
+import XV.Props.C10
